@@ -252,7 +252,7 @@ def native_check_attr(cex):
 
 REPLAY_HEAD = '''# replay of a counterexample found by /verif (property C06) on the real rpyc
 import sys
-sys.path.insert(0, "/repo")
+sys.path.insert(0, __import__("os").environ.get("VERIF_REPO", "/repo"))
 from rpyc.core.protocol import Connection, DEFAULT_CONFIG
 SAFE = DEFAULT_CONFIG["safe_attrs"]
 def allowed(cfg, name):
@@ -685,7 +685,7 @@ def ob_service_hooks(run, interp):
                 run.replay(o, "service_setdel:%d" % r.ctx.notes["which"],
                            "set/del on the service object itself is not refused for name %r" % nm,
                            '''import sys
-sys.path.insert(0, "/repo")
+sys.path.insert(0, __import__("os").environ.get("VERIF_REPO", "/repo"))
 from rpyc.core.protocol import Connection, DEFAULT_CONFIG
 from rpyc.core.service import VoidService
 cfg = dict(DEFAULT_CONFIG, allow_setattr=True, allow_delattr=True, allow_all_attrs=True)
@@ -775,7 +775,7 @@ def ob_restricted(run, interp):
 
 def replay_restricted(cex):
     return '''import sys
-sys.path.insert(0, "/repo")
+sys.path.insert(0, __import__("os").environ.get("VERIF_REPO", "/repo"))
 from rpyc.core.protocol import Connection, DEFAULT_CONFIG
 from rpyc.utils.helpers import restricted
 cex = %r
@@ -892,7 +892,7 @@ def ob_isolation(run, interp):
 
 def replay_isolation(hist):
     return '''import sys
-sys.path.insert(0, "/repo")
+sys.path.insert(0, __import__("os").environ.get("VERIF_REPO", "/repo"))
 from rpyc.core import protocol
 from rpyc.core.protocol import Connection
 from rpyc.core.service import VoidService, SlaveService
